@@ -157,5 +157,9 @@ def compile_code(
                 if hasattr(options, tag):
                     setattr(options, tag, value)
 
+    if __import__("os").environ.get("PYTRAPIC_VERIF") == "1":
+        from . import _verif
+
+        _verif.h2_opts_effective(options)
     set_output_mode(OutputMode.COMPACT if options.compact else OutputMode.VERBOSE)
     return Compiler(options).compile(src)
